@@ -277,6 +277,7 @@ pub fn finish(meta: Meta, mut st: Stats, started: Instant) -> i32 {
     let (known, _fixed) = load_known(&meta.root);
     let wall = started.elapsed().as_secs_f64();
 
+    let mut required = Map::new();
     for (name, min) in &meta.require {
         let got = st
             .counters
@@ -285,6 +286,7 @@ pub fn finish(meta: Meta, mut st: Stats, started: Instant) -> i32 {
             .or_else(|| st.sets.get(name).map(|s| s.len() as u64))
             .or_else(|| st.maxima.get(name).copied())
             .unwrap_or(0);
+        required.insert(name.clone(), json!({"minimum": min, "observed": got}));
         if got < *min {
             st.inconclusive(&format!("observed too little: {name}={got} < {min}"));
         }
@@ -336,6 +338,8 @@ pub fn finish(meta: Meta, mut st: Stats, started: Instant) -> i32 {
     cov.insert("rule".into(), json!(meta.rule));
     cov.insert("samples".into(), Value::Array(st.samples.clone()));
     cov.insert("exhaustive".into(), json!(meta.exhaustive));
+    // the run is INCONCLUSIVE (exit 2), never "held", when one of these is not reached
+    cov.insert("required_minimum_observations".into(), Value::Object(required));
     let mut counters = Map::new();
     for (k, v) in &st.counters {
         counters.insert(k.clone(), json!(v));
